@@ -1298,7 +1298,8 @@ class Explore:
             out_state = self._step_state(bb, state)
             t = fn.blocks[bb]["term"]
             if t["k"] == "switch":
-                v = self._decide(bb, state)
+                # (the operand is read after the block's own statements have run)
+                v = self._decide(bb, out_state)
                 if v is not None:
                     tb = switch_target(t, v)
                     if (bb, tb) not in self.removed_edges:
